@@ -302,6 +302,7 @@ func runC02(e *Engine, r *Report) {
 	ruleHeartbeatMatchArg(e, r)
 	ruleRestoreFastForward(e, r)
 	ruleLastAppliedContiguous(e, r)
+	ruleCommitUpdateActs(e, r)
 	// the apply cursor handed out by the raft core never rewinds (decided by C19's rule set)
 	borrow(e, r, "C19", "DEP-processed-ack")
 	borrow(e, r, "C03", "TBL-state-compare", "WMW-state", "WMW-vote", "WMW-vote-self", "WMW-vote-load")
